@@ -70,6 +70,8 @@ def gen_batch(rng, thorough: bool, max_records: int) -> tuple[dict, dict]:  # no
         kv_kinds.add(f"k:{kk}")
         kv_kinds.add(f"v:{vk}")
         nh = rng.choice((0, 0, 0, 1, 2, 20 if rng.random() < 0.1 else 3))
+        if rng.random() < 0.02:
+            nh = rng.choice((63, 64, 127, 128))  # the zig-zag varint of the header count grows to two bytes at 64
         headers = [(rng.choice((None, b"", b"hkey", rng.randbytes(rng.randint(1, 70)))), rng.choice((None, b"", b"hval", rng.randbytes(rng.randint(1, 70))))) for _ in range(nh)]
         records.append({"attributes": rng.randint(-128, 127), "timestamp_delta": ts[k] - ts[0], "offset_delta": offs[k] - offs[0],
                         "key": key, "value": value, "headers": headers})
